@@ -8,7 +8,9 @@ A metric *spec* is the nested list that is also the protocol token of the Lean m
 lmask: None or list of ints / 'ninf' / 'pinf'.
 
 An *example* is {'t': [targets], 's': [[scores per class] per position], 'd': domain}; scalar
-metrics use position 0.  Scores are integers (exact in float32).
+metrics use position 0.  Scores are integers (exact in float32); for the loss-valued metrics a score
+may also be 'ninf' (a -inf logit, e.g. a class masked out by the model) or an extreme finite float
+(|x| up to 3e38).  Predictions are handed to fedjax as float32 or as an integer dtype.
 """
 import math
 from fractions import Fraction
@@ -137,10 +139,35 @@ def ref_in_topk(k, scores, t):
   return ref_rank(scores, t) < k
 
 
+F32_MAX = 3.4028234663852886e38
+BIGS = [float(np.float32(3e38)), float(np.float32(1e38)), float(2.0 ** 100)]
+
+
+def sval(x):
+  """score token -> float ('ninf' = -inf)"""
+  return -math.inf if x == 'ninf' else float(x)
+
+
+def f32_range(x):
+  """a value beyond the float32 range is +-inf in every float32 computation"""
+  return math.copysign(math.inf, x) if abs(x) > F32_MAX else x
+
+
+def is_moderate(x):
+  return x != 'ninf' and abs(float(x)) < 2 ** 24
+
+
 def ref_ce(scores, t):
-  m = max(scores)
-  lse = m + math.log(sum(math.exp(s - m) for s in scores))
-  return lse - scores[t] if 0 <= t < len(scores) else 0.0
+  """-log softmax(scores)[t]; +inf when class t has a -inf logit (or the value overflows float32).
+  At least one score is finite and none is +inf."""
+  sc = [sval(s) for s in scores]
+  if not 0 <= t < len(sc):
+    return 0.0
+  if sc[t] == -math.inf:
+    return math.inf
+  m = max(sc)
+  # log(sum exp(s - m)) - (s_t - m): no cancellation against a huge maximum
+  return f32_range(math.log(sum(math.exp(s - m) for s in sc)) - (sc[t] - m))
 
 
 def _masked_scores(sc, lm):
@@ -181,15 +208,19 @@ def ref_stat(spec, ex):
   w = [0.0 if t in masked else 1.0 for t in ts]
   nonempty = 1.0 if any(w) else 0.0
 
+  def wsum(vals):
+    # masked positions are ignored whatever their value is (an infinite loss there contributes nothing)
+    return f32_range(sum(v * wi for v, wi in zip(vals, w) if wi))
+
   def token(vals, pp):
     if pp:
-      return 'mean', [_mean(v * wi, wi) for v, wi in zip(vals, w)]
-    return 'mean', [_mean(sum(v * wi for v, wi in zip(vals, w)), sum(w))]
+      return 'mean', [_mean(v * wi if wi else 0.0, wi) for v, wi in zip(vals, w)]
+    return 'mean', [_mean(wsum(vals), sum(w))]
 
   if n == 'stce':
     return token([ref_ce(s, t) for s, t in zip(ss, ts)], spec[2])
   if n == 'sce':
-    return 'mean', [_mean(sum(ref_ce(s, t) * wi for s, t, wi in zip(ss, ts, w)), nonempty)]
+    return 'mean', [_mean(wsum([ref_ce(s, t) for s, t in zip(ss, ts)]), nonempty)]
   if n == 'stacc':
     return token([float(ref_argmax(_masked_scores(s, spec[2])) == t) for s, t in zip(ss, ts)], spec[3])
   if n == 'sttopk':
@@ -227,12 +258,22 @@ def real_example(np_or_jnp, spec, ex, tkey='y', dkey='domain_id'):
   return out
 
 
-def real_prediction(np_or_jnp, spec, ex, pkey=None):
+def real_prediction(np_or_jnp, spec, ex, pkey=None, dtype='float32'):
+  """The prediction array in the requested dtype.  Integer dtypes (fedjax's own docstrings and tests feed
+  integer arrays to the accuracy metrics) need integer scores; 'int64' is a numpy array because JAX
+  without x64 has no int64."""
   xp = np_or_jnp
   b = base_of(spec)[0]
   if b not in NEEDS_PRED:
     return xp.array([], dtype='float32')   # "Unused." in the docstrings
-  arr = xp.array(ex['s'] if is_seq(spec) else ex['s'][0], dtype='float32')
+  raw = ex['s'] if is_seq(spec) else ex['s'][0]
+  if dtype == 'float32':
+    conv = [[sval(v) for v in row] for row in raw] if is_seq(spec) else [sval(v) for v in raw]
+    arr = xp.array(conv, dtype='float32')
+  elif dtype == 'int64':
+    arr = np.array(raw, dtype=np.int64)
+  else:
+    arr = xp.array(raw, dtype=dtype)
   return arr if pkey is None else {pkey: arr}
 
 
@@ -260,12 +301,18 @@ def logp_of(jax, spec, ex):
   """log_softmax of the scores (float32, computed by JAX) as exact Fractions, for the model."""
   if not is_loss(spec):
     return []
-  arr = np.asarray(jax.nn.log_softmax(jax.numpy.array(ex['s'], dtype='float32')), dtype=np.float64)
-  return [[Fraction(float(v)) for v in row] for row in arr]
+  sc = [[sval(v) for v in row] for row in ex['s']]
+  arr = np.asarray(jax.nn.log_softmax(jax.numpy.array(sc, dtype='float32')), dtype=np.float64)
+  # the Lean reference is over rationals: a non-finite log-probability is sent as 0 and the entries of
+  # the statistic it makes non-finite are compared by the Python oracle only (see props/c14.py)
+  return [[Fraction(float(v)) if np.isfinite(v) else Fraction(0) for v in row] for row in arr]
 
 
 def model_ex(jax, spec, ex):
-  return [ex['t'], ex['s'], logp_of(jax, spec, ex), ex['d']]
+  scores = ex['s']
+  if is_loss(spec):
+    scores = [[0] * len(row) for row in scores]      # the loss reference only reads the log-probabilities
+  return [ex['t'], scores, logp_of(jax, spec, ex), ex['d']]
 
 
 def close(impl, ref, scale, rel=1e-4, abs_=1e-5):
@@ -276,9 +323,26 @@ def close(impl, ref, scale, rel=1e-4, abs_=1e-5):
 # generators
 
 
-def gen_scores(rng, C, loss):
-  """Integer class scores with forced ties; small magnitudes for loss-valued metrics."""
+def gen_scores_extreme(rng, C):
+  """Scores for a loss-valued metric with -inf logits (classes masked out by the model) and/or extreme
+  finite magnitudes of mixed signs; at least one score stays finite, none is +inf."""
+  row = [rng.randint(-3, 3) for _ in range(C)]
+  kind = rng.randrange(3)
+  if kind in (0, 2) and C > 1:
+    for i in rng.sample(range(C), rng.randint(1, min(2, C - 1))):
+      row[i] = 'ninf'
+  if kind in (1, 2):
+    for i in range(C):
+      if row[i] != 'ninf' and rng.random() < 0.6:
+        row[i] = rng.choice([-1.0, 1.0]) * rng.choice(BIGS)
+  return row
+
+
+def gen_scores(rng, C, loss, small=False):
+  """Integer class scores with forced ties; small magnitudes for loss-valued metrics (and int8)."""
   kind = rng.randrange(5)
+  if small and kind == 2:
+    kind = 4
   if loss:
     lo, hi = (-3, 3) if kind < 3 else (-12, 12)
     return [rng.randint(lo, hi) for _ in range(C)]
@@ -351,8 +415,9 @@ BASE_NAMES = ['ce', 'acc', 'topk', 'stce', 'sce', 'stacc', 'sttopk', 'trunc', 'o
               'scount', 'cm']
 
 
-def gen_example(rng, spec, L, C, D=1):
-  """In-domain example for `spec`: targets in [0, C), integer scores, domain in [0, D)."""
+def gen_example(rng, spec, L, C, D=1, small=False, extreme=False):
+  """In-domain example for `spec`: targets in [0, C), integer scores, domain in [0, D).
+  extreme (loss-valued metrics only): some positions get -inf / extreme finite logits."""
   loss = is_loss(spec)
   b = base_of(spec)
   n = L if is_seq(spec) else 1
@@ -371,5 +436,15 @@ def gen_example(rng, spec, L, C, D=1):
       ts.append(rng.choice(inr) if inr else rng.randrange(C))
     else:
       ts.append(rng.randrange(C))
-  ss = [gen_scores(rng, C, loss) for _ in range(n)]
+  ss = [gen_scores(rng, C, loss, small) for _ in range(n)]
+  if extreme and loss:
+    for i in range(n):
+      if rng.random() < 0.6:
+        ss[i] = gen_scores_extreme(rng, C)
+        r = rng.random()
+        ninf = [c for c, v in enumerate(ss[i]) if v == 'ninf']
+        if r < 0.25 and ninf:
+          ts[i] = rng.choice(ninf)                     # target class masked out: loss = +inf
+        elif r < 0.5:
+          ts[i] = min(range(C), key=lambda c: sval(ss[i][c]))
   return {'t': ts, 's': ss, 'd': rng.randrange(D)}
